@@ -520,6 +520,7 @@ func runC17(c *Ctx) {
 		})
 		c.phiEdgeLive = nil
 		shortID := true
+		c.equivalentIDsShortForm("C17.P2")
 		c.Check("C17.P2", "unpublished:id=ns:suffix:initial-state", okID, f.Pos(), "with an initial state the document id is \"<ns>:<suffix>:<initial state>\"")
 		c.Check("C17.P2", "unpublished:equivalentId=ns:suffix", okEq && shortID, f.Pos(), "the short form \"<ns>:<suffix>\" is listed as equivalent id")
 	}
@@ -638,6 +639,9 @@ func runC17(c *Ctx) {
 	}
 	c.Min("C17.P2", 7)
 	c.Assume("default update/recovery key generation (crypto/rand) happens only when the caller supplies no key; did-go document parsing and serialisation are outside the claim")
+	// a long-form DID is resolved by handing its initial state to the operation parser: what the parser accepts (and
+	// the limits it applies, each to the thing it is defined on) is part of "every DID Create hands out resolves"
+	runC07(c)
 }
 
 // condsOf: branch conditions (path=truth) on the single-predecessor dominator chain of b.
@@ -653,6 +657,45 @@ func (c *Ctx) condsOf(b *ssa.BasicBlock) []string {
 		}
 	}
 	return out
+}
+
+// equivalentIDsShortForm: whatever the label / domain configuration, no equivalent id of an unpublished document carries
+// the initial state (the equivalent ids are short-form or hinted short-form ids; only the document id is long-form).
+func (c *Ctx) equivalentIDsShortForm(rule string) {
+	f := c.Fn("docutil", "GetTransformationInfoForUnpublished")
+	if f == nil || len(f.Params) != 5 {
+		c.Unresolved(rule, "docutil.GetTransformationInfoForUnpublished")
+		return
+	}
+	n := 0
+	var bad []string
+	var scan func(fn *ssa.Function, env Env, d int)
+	scan = func(fn *ssa.Function, env Env, d int) {
+		forEachInstr(fn, func(in ssa.Instruction) {
+			cl, ok := in.(*ssa.Call)
+			if !ok {
+				return
+			}
+			if bi, isB := cl.Call.Value.(*ssa.Builtin); isB && bi.Name() == "append" && typeShort(cl.Type()) == "[]string" {
+				els, okV := c.varargValues(cl.Call.Args[1])
+				if !okV {
+					return
+				}
+				for _, e := range els {
+					n++
+					if cf := c.concatForm(e, env); strings.Contains(cf, "$4") {
+						bad = append(bad, cf)
+					}
+				}
+				return
+			}
+			if g := cl.Call.StaticCallee(); g != nil && inModule(g) && g.Blocks != nil && d < 2 && pkgPathOf(g) == pkgPathOf(f) && g.Object() != nil && !g.Object().Exported() {
+				scan(g, c.concatEnv(&cl.Call, g, env), d+1)
+			}
+		})
+	}
+	scan(f, nil, 0)
+	c.Check(rule, "unpublished:equivalent-ids-carry-no-initial-state", len(bad) == 0 && n > 0, f.Pos(), fmt.Sprintf("%d equivalent id(s) appended; containing the initial state: %v", n, bad))
 }
 
 // canonCond renders a branch condition with its truth value in a canonical spelling: negations are folded into the
